@@ -126,3 +126,22 @@ def compute_gen2_cached(key):
     if k not in _cache:
         _cache[k] = compute_gen2(key)
     return _cache[k]
+
+
+_BY_TAG = {}
+
+
+def keys_by_tag():
+    """{table tag: [gen-2 keys of eligible fonts that contain it]} — lets a generator pick a table kind
+    first and a font second, so that rare table kinds are not drowned by the common ones."""
+    if not _BY_TAG:
+        for k in all_gen2_keys():
+            g = gen2(k)
+            if g is None:
+                continue
+            try:
+                for t in sorted(_tags(g)):
+                    _BY_TAG.setdefault(t, []).append(k)
+            except Exception:
+                pass
+    return _BY_TAG
